@@ -139,7 +139,7 @@ type Result struct {
 	Coded    bool
 	Body     string
 	Complete bool
-	KeepErr  bool // the service-error writer is a handler of the harness: its event is compared
+	KeepErr  bool        // the service-error writer is a handler of the harness: its event is compared
 	Hdr      [][2]string // X-H* and Allow headers as sent
 	Log      []Event
 	Escaped  *string
